@@ -15,8 +15,9 @@ def S(c=0, b="", as_="", ty="", id=""):
     return {"c": c, "b": b, "as": as_, "ty": ty, "id": id}
 
 
-def P(c=0, b="", as_="", id="", at="", pid=0, ab="", bd=False, lo=0, hi=0):
-    return {"c": c, "b": b, "as": as_, "id": id, "at": at, "pid": pid, "ab": ab, "bd": bd, "lo": lo, "hi": hi}
+def P(c=0, b="", as_="", id="", at="", pid=0, ab="", bd=False, lo=0, hi=0, lb="", ub=""):
+    """lb / ub: a bound written with a binding ("id"@[?lo,?hi]); the binding is an input of the clause"""
+    return {"c": c, "b": b, "as": as_, "id": id, "at": at, "pid": pid, "ab": ab, "bd": bd, "lo": lo, "hi": hi, "lb": lb, "ub": ub}
 
 
 def O(cell=None, b="", as_="", ty="", id="", at="", pid=0, ab="", bd=False, lo=0, hi=0):
@@ -45,8 +46,8 @@ def pattern_names(clauses):
 
 
 # ------------------------------------------------------------------------------------- rendering
-def _bound(pid, lo, hi, alt):
-    return '"%s"@[%s,%s]' % (bqlu.STR[pid - 1], bqlu.time_text(lo, alt) if lo else "", bqlu.time_text(hi, alt) if hi else "")
+def _bound(pid, lo, hi, alt, lb="", ub=""):
+    return '"%s"@[%s,%s]' % (bqlu.STR[pid - 1], lb or (bqlu.time_text(lo, alt) if lo else ""), ub or (bqlu.time_text(hi, alt) if hi else ""))
 
 
 def render_clause(c, alt=False):
@@ -64,7 +65,7 @@ def render_clause(c, alt=False):
     elif p["b"]:
         out.append(p["b"])
     elif p["bd"]:
-        out.append(_bound(p["pid"], p["lo"], p["hi"], alt))
+        out.append(_bound(p["pid"], p["lo"], p["hi"], alt, p.get("lb", ""), p.get("ub", "")))
     else:
         out.append('"%s"@[%s]' % (bqlu.STR[p["pid"] - 1], p["ab"]))
     if p["as"]:
